@@ -81,6 +81,7 @@ class B:
         self.ctx = ctx or {}
         self.out = bytearray()
         self.flags = set()
+        self.names = []  # label lists of the domain names emitted, in order
 
     # -- primitive fields
     def raw(self, b):
@@ -158,6 +159,7 @@ class B:
         for l in labels:
             self.out.append(len(l))
             self.out += l
+        self.names.append(list(labels))
         return labels
 
     def bitmap(self):
@@ -738,13 +740,16 @@ def record(draw, types=None, ctx=None, name=None):
     """-> dict(type=name, rdclass=int, rdtype=int, wire=hex, flags=[...])"""
     if name is None:
         name = type_choice(draw, types)
-    wire, flags = build(draw, name, ctx)
+    b = B(draw, ctx)
+    GRAMMARS[name](b)
+    wire, flags = bytes(b.out), b.flags
     return {
         "type": name,
         "rdclass": rdclass_for(name, draw),
         "rdtype": TYPECODES[name],
         "wire": wire.hex(),
         "flags": sorted(flags),
+        "names": [[l.hex() for l in n] for n in b.names],
     }
 
 
